@@ -4,6 +4,9 @@
    With bits per pixel := bits t the data afterwards equals Framebuffer.fb_set_pixel for the three sub-byte raw types. *)
 From EG Require Import Base.Prelude Base.Casts Model.Geometry Model.Rawdata Model.Framebuffer Gen.SrcGeometry Gen.SrcFbSetPixel Gen.SrcFbSetPixelBits Proofs.SrcLoadStore Proofs.SrcFbSetPixel.
 Set Default Timeout 60.
+(* the generated definitions that cast to usize (`as usize`, `usize::try_from`) take the width of usize as Casts.UsizeW; the model
+   of this property works with 64-bit usize (exact integers in range): taken at that width *)
+#[local] Existing Instance Casts.usize64_w.
 
 Lemma lxor_255_all : forallb (fun y => Z.lxor y 255 =? 255 - y) (map Z.of_nat (seq 0 256)) = true.
 Proof. vm_compute. reflexivity. Qed.
@@ -39,7 +42,7 @@ Lemma src_fb_set_pixel_bits_eq t alt W H into fb p c :
     else Some (Build_Framebuffer (fb_set_pixel (FbCfg t alt W H) (Framebuffer_data fb) (px p, py p) (into c)) (Framebuffer_n_assert fb)).
 Proof.
   intros Ht HW Hx Hy. pose proof (sub_byte t Ht) as Hb. destruct fb as [data na].
-  unfold src_Framebuffer_set_pixel_bits, fb_set_pixel, in_fb, bits_byte_index, Casts.try_from_range, i32_min, i32_max in *.
+  unfold src_Framebuffer_set_pixel_bits, fb_set_pixel, in_fb, bits_byte_index, Casts.try_from_usize, Casts.try_from_range, Casts.usize_max_w, Casts.usize64_w, Casts.max_usize, i32_min, i32_max in *.
   cbn [fb_t fb_w fb_h fb_alt Framebuffer_data Framebuffer_n_assert].
   destruct (Z.leb_spec 0 (px p)) as [X|X]; cbn [andb].
   2:{ destruct ((px p <=? 18446744073709551615)); reflexivity. }
